@@ -377,6 +377,17 @@ func TestOrderDependentPrograms(t *testing.T) {
 	progs["mixed-string"] = []*gen.Node{gen.NForIn("c", gen.NStr("ab\u00e9\u4e16\U0001F600xy"), two("c")), gen.NCall("probe", gen.NStr("after"))}
 	progs["mixed-string-invalid-bytes"] = []*gen.Node{gen.NForIn("c", gen.NStr("ab\xffcd\u00e9\xf0\x9f"), two("c")), gen.NCall("probe", gen.NStr("after"))}
 	progs["mixed-string-nested"] = []*gen.Node{gen.NForIn("c", gen.NStr("a\u00e9"), []*gen.Node{gen.NForIn("d", gen.NStr("b\u00e9\U0001F600z"), two("d")), gen.NCall("probe", gen.NStr("outer"), id("c"))}), gen.NCall("probe", gen.NStr("after"))}
+	// loops over maps of several keys whose passes end in continue / break / an if without else: whichever key comes
+	// first, nothing of the next pass runs once the stop was observed
+	m4 := func() *gen.Node {
+		return gen.NMap(gen.NStr("a"), gen.NInt(1), gen.NStr("b"), gen.NInt(2), gen.NStr("c"), gen.NInt(3), gen.NStr("d"), gen.NInt(4))
+	}
+	progs["map-pass-ends-in-continue"] = []*gen.Node{gen.NForIn("k", m4(), []*gen.Node{gen.NCall("probe", gen.NStr("head")), gen.NContinue()}), gen.NCall("probe", gen.NStr("after"))}
+	progs["map-pass-continue-in-branch"] = []*gen.Node{gen.NSet("m", m4()), gen.NForIn("k", id("m"), []*gen.Node{gen.NCall("probe", gen.NStr("head")), gen.NIf([]*gen.Node{gen.NBin("!=", id("k"), gen.NStr("zz"))}, [][]*gen.Node{{gen.NContinue()}}, nil, false), gen.NCall("probe", gen.NStr("tail"))}), gen.NCall("probe", gen.NStr("after"))}
+	progs["map-nested-continue"] = []*gen.Node{gen.NForIn("o", gen.NList(gen.NInt(1), gen.NInt(2)), []*gen.Node{gen.NForIn("k", m4(), []*gen.Node{gen.NCall("probe", gen.NStr("head"), id("o")), gen.NIf([]*gen.Node{gen.NBool(true)}, [][]*gen.Node{{gen.NIf([]*gen.Node{gen.NBool(true)}, [][]*gen.Node{{gen.NContinue()}}, nil, false)}}, nil, false)}), gen.NCall("probe", gen.NStr("outer"), id("o"))}), gen.NCall("probe", gen.NStr("after"))}
+	progs["map-pass-plain"] = []*gen.Node{gen.NForIn("k", m4(), []*gen.Node{gen.NCall("probe", gen.NStr("head")), gen.NSet("x", gen.NInt(1))}), gen.NCall("probe", gen.NStr("after"))}
+	progs["list-pass-ends-in-continue"] = []*gen.Node{gen.NForIn("k", gen.NList(gen.NInt(1), gen.NInt(2), gen.NInt(3)), []*gen.Node{gen.NCall("probe", gen.NStr("head"), id("k")), gen.NContinue()}), gen.NCall("probe", gen.NStr("after"))}
+	progs["string-pass-ends-in-continue"] = []*gen.Node{gen.NForIn("k", gen.NStr("a\u00e9z"), []*gen.Node{gen.NCall("probe", gen.NStr("head"), id("k")), gen.NIf([]*gen.Node{gen.NBool(true)}, [][]*gen.Node{{gen.NContinue()}}, nil, false)}), gen.NCall("probe", gen.NStr("after"))}
 	progs["multibyte-first"] = []*gen.Node{gen.NForIn("c", gen.NStr("\u4e16ab\u00e9c"), two("c")), gen.NCall("probe", gen.NStr("after"))}
 	n := 0
 	for name, p := range progs {
